@@ -31,6 +31,9 @@ PLANS["C14"] = {
         "slice_get_previous": ["u1::slice_tracker_3"], "slice_get_next": ["u1::slice_tracker_3"], "slice_ignore": ["u1::slice_tracker_3"],
         "eval_binary": ["u1::eval_binary_orders_4", "u1::eval_binary_orders_4_slice"], "eval_numbers": [],
     },
+    "cex_native": {
+        "eval_numbers": [("u1::eval_numbers_boundary_65", ["00", "01"]), ("u1::eval_numbers_boundary_66", ["00", "01"]), ("u1::eval_numbers_boundary_64", ["00", "01"])],
+    },
     "trusted_base": [
         A_VERUS,
         "assume_specification for usize::rotate_right / leading_ones / trailing_ones (each re-checked for all usize by Kani harness u1::intrinsics_spec; residual trust: CBMC's model of the intrinsics)",
